@@ -25,7 +25,9 @@ import (
 func runC13wire(t *testing.T, env core.Env, rep *core.Report) {
 	rep.Rule = "one evaluation = one getheaders frame (locator of length 1-2 over longest/stale/orphan/unknown hashes, every stop) sent by a scripted node to a synced service, the returned headers frame compared with the reference; non-trivial = the locator or stop holds a stale, orphan or unknown hash"
 	rep.Bound = "[wire: store = main chain of 5 + stale branch of 2 + orphan; all locators of length 1-2 over the 10 hashes x 11 stops x {legacy, experimental}]"
-	for ei, eng := range []string{"legacy", "experimental"} {
+	// third run: the experimental engine starts below a checkpoint, syncs through it from the
+	// scripted node and is asked afterwards
+	for ei, eng := range []string{"legacy", "experimental", "experimental+checkpoint"} {
 		if !env.Mine(ei) {
 			continue
 		}
@@ -34,6 +36,7 @@ func runC13wire(t *testing.T, env core.Env, rep *core.Report) {
 }
 
 func c13wireEngine(rep *core.Report, eng string) {
+	viaCheckpoint := eng == "experimental+checkpoint"
 	// blocks 1..5 main, 6,7 stale branch after 2, 8 orphan (unknown parent)
 	bs := tree(5, 2, 2)
 	bs = append(bs, BlockSpec{Parent: core.ParentUnknown})
@@ -46,11 +49,21 @@ func c13wireEngine(rep *core.Report, eng string) {
 	defer func() { config.Lookup, config.Dial, config.Checkpoints = oldLookup, oldDial, oldCP }()
 	rig := core.NewRig(core.RigOpts{})
 	seq := []int{1, 2, 3, 4, 5, 6, 7, 8}
-	for _, id := range seq {
+	stored := seq
+	if viaCheckpoint {
+		// stored before the engine starts: 1, 2 and the orphan; 3..5 come over the wire
+		seq, stored = []int{1, 2, 8, 3, 4, 5}, []int{1, 2, 8}
+	}
+	for _, id := range stored {
 		core.SafeAdd(rig.Svc.Chains, blocks[id].Raw.Source())
 	}
 	model := core.ModelOf(u, 0, seq)
-	if ok, why := core.CheckConsistent(core.DumpHeaders(rig.DB), model); !ok {
+	if ok, why := core.CheckConsistent(core.DumpHeaders(rig.DB), core.ModelOf(u, 0, stored)); viaCheckpoint && !ok {
+		rep.Outcome("skipped:store diverges from C01 model: " + why)
+		rig.Close()
+		return
+	}
+	if ok, why := core.CheckConsistent(core.DumpHeaders(rig.DB), model); !viaCheckpoint && !ok {
 		rep.Outcome("skipped:store diverges from C01 model: " + why)
 		rig.Close()
 		return
@@ -59,6 +72,9 @@ func c13wireEngine(rep *core.Report, eng string) {
 	labels := model.Labels()
 	n := &Node{ID: 0, Addr: &net.TCPAddr{IP: net.ParseIP("10.0.0.1"), Port: 8333}, Cap: 2000, Honest: true}
 	n.Chain = []block{blocks[0], blocks[1]}
+	if viaCheckpoint {
+		n.Chain = []block{blocks[0], blocks[1], blocks[2], blocks[3], blocks[4], blocks[5]}
+	}
 	a, b := net.Pipe()
 	svcEnd := &tcpConn{Conn: a, remote: n.Addr, local: &net.TCPAddr{IP: net.ParseIP("10.9.9.9"), Port: 8333}}
 	n.attach(b)
@@ -77,6 +93,10 @@ func c13wireEngine(rep *core.Report, eng string) {
 	} else {
 		params := chaincfg.MainNetParams
 		params.Checkpoints = nil
+		if viaCheckpoint {
+			h3 := chainhash.Hash(blocks[3].Hash)
+			params.Checkpoints = []chaincfg.Checkpoint{{Height: int32(blocks[3].Height), Hash: &h3}}
+		}
 		xp, _ = exppeer.NewPeer(svcEnd, false, rig.Cfg.P2P, &params, rig.Svc.Headers, rig.Svc.Chains, core.Quiet())
 		go func() {
 			if xp.Connect() == nil {
@@ -86,8 +106,13 @@ func c13wireEngine(rep *core.Report, eng string) {
 	}
 	synctest.Wait()
 	// let the service's own initial request be answered (nothing new for it)
-	for i := 0; i < 3 && n.Deliver(); i++ {
+	for i := 0; i < 6 && n.Deliver(); i++ {
 		synctest.Wait()
+	}
+	if viaCheckpoint {
+		if ok, why := core.CheckConsistent(core.DumpHeaders(rig.DB), model); !ok {
+			rep.Violate(core.Violation{Kind: "wire.sync_through_checkpoint/experimental", What: "the experimental engine did not store the node's chain through the checkpoint: " + why, Replay: map[string]any{"engine": "netwalk", "property": "C13", "wire_engine": eng}})
+		}
 	}
 	hashes := []string{}
 	for _, m := range model.Order {
